@@ -232,7 +232,14 @@ def readFromStream(substrate, size=-1, context=None):
     """
     while True:
         # this will block unless stream is non-blocking
-        received = substrate.read(size)
+        try:
+            received = substrate.read(size)
+
+        except (MemoryError, OverflowError):
+            # the stream could not even set up a buffer of `size` octets
+            # (file objects allocate it up front): that many are not there
+            received = None
+
         if received is None:  # non-blocking stream can do this
             yield error.SubstrateUnderrunError(context=context)
 
